@@ -25,7 +25,7 @@
 
 static const char base32EncodeTable[33] = "ABCDEFGHIJKLMNOPQRSTUVWXYZ234567";
 
-static const unsigned char base32NumDecTable[10] = {
+static const signed char base32NumDecTable[10] = {
 	-1, -1, 26, 27, 28, 29, 30, 31, -1, -1
 };
 
